@@ -7,6 +7,7 @@ import (
 	"math"
 	"reflect"
 	"sort"
+	"strconv"
 	"strings"
 	"time"
 	"unicode/utf8"
@@ -83,13 +84,37 @@ type Piece struct {
 	// a source text with slots: every "%I" in Subst is replaced by the text With
 	Subst *string `json:"subst,omitempty"`
 	With  []int   `json:"with,omitempty"`
+	// Rep > 0: "%I" stands for With repeated Rep times and "%J" for With2 repeated Rep times (deep nesting);
+	// Seq > 0: the whole piece is written Seq times with "%N" replaced by 1, 2, ... (many distinct names)
+	With2 []int   `json:"with2,omitempty"`
+	WithA *string `json:"witha,omitempty"` // With / With2 given as plain strings
+	WithB *string `json:"withb,omitempty"`
+	Rep   int     `json:"rep,omitempty"`
+	Seq   int     `json:"seq,omitempty"`
 }
 
 func sourceOf(ps []Piece, pads []Pad) string {
 	var sb strings.Builder
 	for _, p := range ps {
 		if p.Subst != nil {
-			sb.WriteString(strings.ReplaceAll(*p.Subst, "%I", textOf(p.With, nil, false)))
+			w, w2 := textOf(p.With, nil, false), textOf(p.With2, nil, false)
+			if p.WithA != nil {
+				w = *p.WithA
+			}
+			if p.WithB != nil {
+				w2 = *p.WithB
+			}
+			if p.Rep > 0 {
+				w, w2 = strings.Repeat(w, p.Rep), strings.Repeat(w2, p.Rep)
+			}
+			t := strings.ReplaceAll(strings.ReplaceAll(*p.Subst, "%I", w), "%J", w2)
+			if p.Seq > 0 {
+				for n := 1; n <= p.Seq; n++ {
+					sb.WriteString(strings.ReplaceAll(t, "%N", strconv.Itoa(n)))
+				}
+			} else {
+				sb.WriteString(t)
+			}
 		} else if p.W != nil {
 			sb.WriteString(*p.W)
 		} else {
@@ -212,6 +237,32 @@ func toGo(v Value) interface{} {
 			out := make([]float32, len(v.Xs))
 			for i, x := range v.Xs {
 				out[i] = float32(x.I)
+			}
+			return out
+		case "counters": // []Counter: struct values whose pointer-receiver method changes its receiver
+			out := make([]Counter, len(v.Xs))
+			for i, x := range v.Xs {
+				out[i] = Counter{N: x.I, Tags: []string{"t"}}
+			}
+			return out
+		case "counterptrs": // []*Counter
+			out := make([]*Counter, len(v.Xs))
+			for i, x := range v.Xs {
+				out[i] = &Counter{N: x.I, Tags: []string{"t"}}
+			}
+			return out
+		case "counterarr": // [2]Counter
+			var out [2]Counter
+			for i, x := range v.Xs {
+				if i < 2 {
+					out[i] = Counter{N: x.I}
+				}
+			}
+			return out
+		case "f64s":
+			out := make([]float64, len(v.Xs))
+			for i, x := range v.Xs {
+				out[i] = float64(x.I)
 			}
 			return out
 		case "strs":
@@ -622,7 +673,53 @@ func snap(sb *strings.Builder, v reflect.Value, depth int) {
 func shapeOfKind(kind string) interface{} {
 	five := 5
 	p5 := &five
+	// generic kinds: "i:<decimal>" an int, "ch:<code>" a one-byte string, "s:<c1>,<c2>,.." a string of bytes
+	if strings.HasPrefix(kind, "i:") {
+		n, err := strconv.ParseInt(kind[2:], 10, 64)
+		if err != nil {
+			panic("harness: bad shape " + kind)
+		}
+		return int(n)
+	}
+	if strings.HasPrefix(kind, "ch:") || strings.HasPrefix(kind, "s:") {
+		var b []byte
+		for _, f := range strings.Split(kind[strings.Index(kind, ":")+1:], ",") {
+			n, err := strconv.Atoi(f)
+			if err != nil || n < 0 || n > 255 {
+				panic("harness: bad shape " + kind)
+			}
+			b = append(b, byte(n))
+		}
+		return string(b)
+	}
 	switch kind {
+	// values that contain themselves
+	case "cyclist":
+		xs := []interface{}{1, nil, "a"}
+		xs[1] = xs
+		return xs
+	case "cycmap":
+		m := map[string]interface{}{"a": 1}
+		m["self"] = m
+		return m
+	case "cycptr":
+		n := &cycNode{Name: "n"}
+		n.Next = n
+		n.Kids = []*cycNode{n}
+		return n
+	case "cycmutual":
+		a := map[string]interface{}{"n": "a"}
+		b := []interface{}{a}
+		a["list"] = b
+		return b
+	case "strlong":
+		return strings.Repeat("ab,", 200000)
+	case "listlong":
+		out := make([]interface{}, 200000)
+		for i := range out {
+			out[i] = i % 7
+		}
+		return out
 	case "nil":
 		return nil
 	case "true":
@@ -757,6 +854,24 @@ func shapeOfKind(kind string) interface{} {
 }
 
 type tagsType []string
+
+// Counter: Next (pointer receiver) counts up in its receiver, Peek (value receiver) reads; a template works on the
+// values it was given, never on the caller's elements
+type Counter struct {
+	N    int
+	Tags []string
+}
+
+func (c *Counter) Next() int       { c.N++; return c.N }
+func (c *Counter) Push() int       { c.Tags = append(c.Tags, "x"); return len(c.Tags) }
+func (c Counter) Peek() int        { return c.N }
+func (c *Counter) Reset() *Counter { c.N = 0; return c }
+
+type cycNode struct {
+	Name string
+	Next *cycNode
+	Kids []*cycNode
+}
 
 type privHolder struct {
 	limit *int
